@@ -300,6 +300,8 @@ class C12(Check):
                 do("reset")
                 if rng.random() < 0.6:
                     do("flag on")
+                elif rng.random() < 0.5:
+                    do("cflag SV on")         # caching for the instances of one subclass only
                 for _ in range(rng.randint(2, 4)):
                     do("universe" if rng.random() < 0.3 else "vertex " + rng.choice(["V", "SV"]))
                 do("lawset %d" % rng.choice([2, 3]))
